@@ -14,6 +14,7 @@
 (*  "shape"  observed result shape of a query called with parameter arrays *)
 (*           of shapes ms / ds (<<-1>> = the call raised)                  *)
 (*  "slice"  which angles survive geom[start:stop:step]                    *)
+(*  "vec"    one row of the per-angle back-end vectors (astra_setup.py)     *)
 (*  "cover"  worst quantised excess of projected volume corners beyond the *)
 (*           detector of a factory-made geometry (relational clause)       *)
 (*                                                                         *)
@@ -106,7 +107,31 @@ CoverClauses(e) ==
         ELSE IF par \/ known \/ ~narrow THEN {"coverage"}
         ELSE {"coverage-radius"}
 
+\* "vec": one row of the per-angle vectors that odl/tomo/backends/astra_setup.py derives from a geometry for the
+\* projector back-end (documented per row: source position | ray direction, CENTRE OF THE DETECTOR, the vectors
+\* from detector pixel (0,0) to (0,1) and to (1,0)), taken at an angle of the partition whose rotation is exactly
+\* known, on an off-centre detector partition with unequal cell sides px.  The centre is the detector point at
+\* the mid parameter e.u (reference point + rotated surface point), in the back-end's axis convention: (z, y, x)
+\* component order in 3-d, the plane turned by -90 degrees in 2-d.
+Rev3(v) == <<v[3], v[2], v[1]>>
+RotM90(v) == <<v[2], QNeg(v[1])>>
+VecClauses(e) ==
+  LET gg == e.g
+      f == Frame(gg)
+      R == RotAtF(gg, f, e.a)
+      d == DetPointF(gg, f, R, e.a, e.u)
+      axs == DetAxesF(f, R)
+      first == IF IsParallel(gg.cls) THEN GNeg(DetToSrcF(gg, f, R, e.a, e.u)) ELSE SrcPosF(gg, f, R, e.a)
+      exp == IF NDim(gg.cls) = 3
+               THEN Rev3(first) \o Rev3(d) \o Rev3(GScale(e.px[2], axs[2])) \o Rev3(GScale(e.px[1], axs[1]))
+               ELSE RotM90(first) \o RotM90(d) \o RotM90(GScale(e.px[1], axs[1]))
+      big == Max2(MaxDenV(exp), MaxDenM(R))
+  IN  IF big > DMax THEN {"outside-lattice"}
+      ELSE IF e.err # "" THEN {"raised"}
+      ELSE IF e.row # exp THEN {"backend-vectors"} ELSE {}
+
 Clauses(e) == CASE e.k = "val" -> ValClauses(e)
+                [] e.k = "vec" -> VecClauses(e)
                 [] e.k = "shape" -> ShapeClauses(e)
                 [] e.k = "slice" -> SliceClauses(e)
                 [] e.k = "cover" -> CoverClauses(e)
